@@ -15,10 +15,10 @@ package main
 
 import (
 	"context"
-	"math"
 	"crypto/sha1"
 	"encoding/hex"
 	"fmt"
+	"math"
 	"sort"
 	"strconv"
 	"strings"
@@ -151,7 +151,7 @@ func (c pcase) runParkedInner(out *parkedOut) {
 	}
 	seeds := 0
 	for _, m := range stored {
-		if c.visible(m) != nil {
+		if c.visible(m) != nil && !c.UpdatesOnly {
 			seeds++
 		}
 	}
@@ -345,7 +345,9 @@ func (c pcase) monitorParked(ms *monitors, out parkedOut) {
 // ---------------------------------------------------------------------------------------------
 // generation
 
-func dbl(v float64) proto.Message { return &testproto.TestAllTypes{DefaultDouble: v, DefaultString: "k"} }
+func dbl(v float64) proto.Message {
+	return &testproto.TestAllTypes{DefaultDouble: v, DefaultString: "k"}
+}
 
 // parkedShapes: every sequence of 1..maxLen writes to ONE id (from present: update | delete, from absent:
 // add), every written value from vals, for a start state absent | present(vals[0]).
@@ -488,6 +490,7 @@ func (g *gen) pcaseParked() pcase {
 			c.Inc = &incSpec{Field: string(fd.Name()), Op: []string{"gt", "lt", "ge"}[g.r.Intn(3)], Thr: thr}
 		}
 	}
+	c.UpdatesOnly = g.r.Intn(6) == 0
 	if g.r.Intn(3) == 0 {
 		c.Mask = g.mask(mt, base)
 		if c.Mask != nil && floatStyle && g.r.Intn(2) == 0 {
@@ -541,7 +544,7 @@ func runParked(f lib.Flags, res *lib.Result, drv *lib.Driver, ms *monitors) {
 		}
 	}
 	tie := res.Tie("lossy-merge-window", "K1",
-		"random parked-subscriber runs of Collection.Pull without backpressure: 0-3 initial items (ids a,b,c), 1-3 windows of 1-6 writes (Add/Update/Delete, 70% on one focus id, so delete+add+update runs on a held id are frequent), written value = a small step from the previous one (float nudges recorded for the tolerance, or 0-2 random mutations) or the value held when the window began; any ancestor type; equivalence none | WithNoDuplicates | Equal() | Equal(tolerances around the written steps); optional read mask; on TestAllTypes 40% with WithInclude(float field gt/lt/ge a threshold on or beside a written value). Non-trivial: runs with an equivalence configured")
+		"random parked-subscriber runs of Collection.Pull without backpressure: 0-3 initial items (ids a,b,c), 1-3 windows of 1-6 writes (Add/Update/Delete, 70% on one focus id, so delete+add+update runs on a held id are frequent), written value = a small step from the previous one (float nudges recorded for the tolerance, or 0-2 random mutations) or the value held when the window began; any ancestor type; equivalence none | WithNoDuplicates | Equal() | Equal(tolerances around the written steps); optional read mask, every 6th with WithUpdatesOnly (no seeds); on TestAllTypes 40% with WithInclude(float field gt/lt/ge a threshold on or beside a written value). Non-trivial: runs with an equivalence configured")
 	g := &gen{r: lib.NewRand(f.Seed + 15485863)}
 	for i, n := 0, f.N(250, 4000); i < n; i++ {
 		c := g.pcaseParked()
